@@ -38,17 +38,26 @@ structure TDefects where
   /-- a closure whose body has the nil type (`map(xs, {nil})`) reaches `reflect.FuncOf` with a nil
       result type, which panics -/
   closureNilPanic : Bool
+  /-- `a[f:t]` is accepted for every indexable `a`, maps included (the VM cannot slice a map) -/
+  sliceOfMap : Bool
+  /-- `x in m` is accepted for a map `m` whatever the type of `x` (the VM's `MapIndex` needs a key
+      assignable to the map's key type) -/
+  inMapAnyKey : Bool
+  /-- a computed key `(e)` of a map literal may have any type (the VM asserts it to be a string) -/
+  mapKeyUnchecked : Bool
   deriving DecidableEq, Repr
 
 /-- the pinned snapshot -/
-def TDefects.asWas : TDefects := ⟨true, true, true, true, true, true⟩
-/-- /repo's current HEAD -/
-def TDefects.asIs : TDefects := ⟨true, true, true, false, true, true⟩
-def TDefects.repaired : TDefects := ⟨false, false, false, false, false, false⟩
-/-- the flags after the three checker patches that leave /repo's own tests passing (numeric-only literal
-retyping, nil closure body, nil type under `AsBool`); the loose index rule and the static slice types of
-`filter`/`map` are relied upon by /repo's tests and stay -/
-def TDefects.safeFix : TDefects := ⟨false, true, false, false, true, false⟩
+def TDefects.asWas : TDefects := ⟨true, true, true, true, true, true, true, true, true⟩
+/-- /repo's current HEAD: after the `fix:` commits 76735a9 (located error first), b6f8e35 (`AsBool` on the
+nil type), 6162013 (numeric-only literal retyping), 106fb38 (closure with a nil-typed body).  The loose
+index rule and the static slice types of `filter`/`map` are pinned by /repo's own tests and remain. -/
+def TDefects.asIs : TDefects := ⟨false, true, false, false, true, false, true, true, true⟩
+def TDefects.repaired : TDefects := ⟨false, false, false, false, false, false, false, false, false⟩
+def TDefects.safeFix : TDefects := TDefects.asIs
+/-- … plus the three further checker patches proposed in /tmp/w/types/c03-fixes-2.patch (slice of a map,
+`in` with a key of the wrong type, computed map-literal key of a non-string type) -/
+def TDefects.safeFix2 : TDefects := ⟨false, true, false, false, true, false, false, false, false⟩
 
 inductive Expect where
   | none | bool | int64 | float64
@@ -67,7 +76,7 @@ inductive CheckErrClass where
   | mismatchMatches | noField | badIndex | notIndexable | badSliceIndex | notSliceable
   | unknownFunc | noMethod | noResult | manyResults | tooMany | notEnough | badArgument
   | badLen | notArray | closureNotBool | badClosure | unknownBuiltin | pointerOutside | pointerNotArray
-  | nonBoolCond | expected
+  | nonBoolCond | expected | badMapKey
   deriving DecidableEq, Repr
 
 def CheckErrClass.name : CheckErrClass → String
@@ -81,7 +90,7 @@ def CheckErrClass.name : CheckErrClass → String
   | .badArgument => "bad-argument" | .badLen => "bad-len" | .notArray => "not-array"
   | .closureNotBool => "closure-not-bool" | .badClosure => "bad-closure" | .unknownBuiltin => "unknown-builtin"
   | .pointerOutside => "pointer-outside" | .pointerNotArray => "pointer-not-array"
-  | .nonBoolCond => "non-bool-cond" | .expected => "expected"
+  | .nonBoolCond => "non-bool-cond" | .expected => "expected" | .badMapKey => "bad-map-key"
 
 structure CState where
   err : Option (Loc × CheckErrClass) := none
@@ -258,11 +267,11 @@ def isIndexOk (dt : TDefects) (container i : OTy) : Bool :=
 /-! ### the local typing rules
 
 Each clause of the visitor is: visit the children, then apply a *local rule* to their types.  The rules
-are pure (`Except ErrClass OTy`: the type, or the class of the error `v.error` records); the visitor
+are pure (`Except CheckErrClass OTy`: the type, or the class of the error `v.error` records); the visitor
 below threads the state through them (`orFail`), and the compositional reference rules
 (`Types/HasType.lean`) apply the very same rules without any state. -/
 
-abbrev Rule := Except ErrClass OTy
+abbrev Rule := Except CheckErrClass OTy
 
 /-- `return v.error(node, …)` when the rule fails (the result type is then `interface{}`) -/
 def orFail (r : Rule) (loc : Loc) (st : CState) : OTy × CState :=
@@ -295,15 +304,25 @@ def unaryRule (op : String) (t : OTy) : Rule :=
     if isNumberT t then .ok t else .error .mismatchUnary
   else .error .unknownOperator
 
+/-- can a value of type `l` be looked up in the map (or interface) `r`? -/
+def mapKeyFits (l r : OTy) : Bool :=
+  match r.deref with
+  | some m =>
+    if m.kind == .map then
+      isInterfaceT l || (match l, m.mapKey? with | some lt, some k => assignableTo lt k | _, _ => false)
+    else true
+  | none => false
+
 /-- `BinaryNode` (no operator overloading) -/
-def binaryRule (op : String) (l r : OTy) : Rule :=
+def binaryRule (dt : TDefects) (op : String) (l r : OTy) : Rule :=
   let bad : Rule := .error .mismatchBinary
   if op == "==" || op == "!=" then
     if (isNumberT l && isNumberT r) || isComparableT l r then .ok boolTy else bad
   else if op == "or" || op == "||" || op == "and" || op == "&&" then
     if isBoolT l && isBoolT r then .ok boolTy else bad
   else if op == "in" || op == "not in" then
-    if (isStringT l && isStructT r) || isMapT r || isArrayT r then .ok boolTy else bad
+    if (isStringT l && isStructT r) || (isMapT r && (dt.inMapAnyKey || mapKeyFits l r)) || isArrayT r
+    then .ok boolTy else bad
   else if op == "<" || op == ">" || op == ">=" || op == "<=" then
     if (isNumberT l && isNumberT r) || (isStringT l && isStringT r) then .ok boolTy else bad
   else if op == "/" || op == "-" || op == "*" then
@@ -325,7 +344,7 @@ def matchesRule (l r : OTy) : Rule :=
   if isStringT l && isStringT r then .ok boolTy else .error .mismatchMatches
 
 /-- `PropertyNode` -/
-def propRule (dn : Defects) (t : OTy) (name : String) (nilsafe : Bool) : Rule :=
+def propRule (dn : NDefects) (t : OTy) (name : String) (nilsafe : Bool) : Rule :=
   match fieldTypeT dn t name with
   | some ft => .ok (some ft)
   | none => if !nilsafe then .error .noField else .ok none
@@ -336,10 +355,15 @@ def indexRule (dt : TDefects) (t i : OTy) : Rule :=
   | some et => if !isIndexOk dt t i then .error .badIndex else .ok et
   | none => .error .notIndexable
 
-def sliceable (t : OTy) : Bool := (indexTypeT t).isSome || isStringT t
+def sliceable (dt : TDefects) (t : OTy) : Bool :=
+  if dt.sliceOfMap then (indexTypeT t).isSome || isStringT t else isArrayT t || isStringT t
+
+/-- the key of a map-literal pair -/
+def pairKeyRule (dt : TDefects) (kt : OTy) : Rule :=
+  if dt.mapKeyUnchecked || isStringT kt then .ok none else .error .badMapKey
 
 /-- the callable a `MethodNode` resolves to: (function type, has a receiver parameter) -/
-def methodTarget (dn : Defects) (t : OTy) (name : String) : Option (Ty × Bool) :=
+def methodTarget (dn : NDefects) (t : OTy) (name : String) : Option (Ty × Bool) :=
   (methodTypeT dn t name).bind fun fm => (isFuncType (some fm.1)).map fun fn => (fn, fm.2)
 
 /-- the callable a `FunctionNode` resolves to -/
@@ -442,7 +466,7 @@ def visit (cfg : CheckCfg) : Node → CState → Node × OTy × CState
   | .binary m op l r, st =>
     let (l', lt, st) := visit cfg l st
     let (r', rt, st) := visit cfg r st
-    let (t, st) := orFail (binaryRule op lt rt) m.loc st
+    let (t, st) := orFail (binaryRule cfg.dt op lt rt) m.loc st
     (setKd (.binary m op l' r') t, t, st)
   | .matches m hasRe l r, st =>
     let (l', lt, st) := visit cfg l st
@@ -460,7 +484,7 @@ def visit (cfg : CheckCfg) : Node → CState → Node × OTy × CState
     (setKd (.index m x' i') r, r, st)
   | .slice m x from_ to, st =>
     let (x', t, st) := visit cfg x st
-    if sliceable t then
+    if sliceable cfg.dt t then
       let (from', fromOk, st) := visitBound cfg from_ st
       -- a non-integer `from` returns at once: `to` is not visited
       if !fromOk then (setKd (.slice m x' from' to) ifaceTy, ifaceTy, st)
@@ -558,7 +582,8 @@ def visit (cfg : CheckCfg) : Node → CState → Node × OTy × CState
     let (ps', st) := visitList cfg ps st
     (setKd (.map m ps') mapTy, mapTy, st)
   | .pair m k v, st =>
-    let (k', _, st) := visit cfg k st
+    let (k', kt, st) := visit cfg k st
+    let (_, st) := orFail (pairKeyRule cfg.dt kt) k'.loc st
     let (v', _, st) := visit cfg v st
     (setKd (.pair m k' v') none, none, st)
 
